@@ -559,6 +559,11 @@ pub fn generate_c15(tier: &str, rng: &mut Prng) -> Vec<Case> {
         for seed in crate::seeds::special(n, tier, "long_rejection", 2) {
             ops.push(Case::new(format!("keygen_digest {n} {}", hex(&seed))));
         }
+        // seeds whose g is not invertible mod q (legal); the first with an even first byte, so that flipping seed bit 0
+        // gives the numerically next seed
+        if let Some(seed) = crate::seeds::special(n, "thorough", "g_ntt_zero", 1).into_iter().find(|s| s[0] % 2 == 0) {
+            ops.push(Case::new(format!("keygen_digest {n} {}", hex(&seed))));
+        }
         // seeds for which 65 or more candidates are drawn before one is accepted
         for seed in crate::seeds::special(n, tier, "many_candidates", 1) {
             ops.push(Case::new(format!("keygen_digest {n} {}", hex(&seed))));
